@@ -173,6 +173,15 @@ Theorem C12_suffices_glwe_rotate_assign : forall fam n : Z, is_fam fam -> 0 <= n
 Proof. exact suffices_glwe_rotate_assign. Qed.
 Print Assumptions C12_suffices_glwe_rotate_assign.
 
+Theorem C12_suffices_gglwe_prepare : forall fam n : Z, is_fam fam -> 0 <= n -> forall key : infos,
+  run_takes (tree_gglwe_prepare fam n key) (0, gglwe_prepare_tmp_bytes fam n key) <> None.
+Proof. exact suffices_gglwe_prepare. Qed.
+Print Assumptions C12_suffices_gglwe_prepare.
+Theorem C12_suffices_ggsw_prepare : forall fam n : Z, is_fam fam -> 0 <= n -> forall ggsw : infos,
+  run_takes (tree_ggsw_prepare fam n ggsw) (0, ggsw_prepare_tmp_bytes fam n ggsw) <> None.
+Proof. exact suffices_ggsw_prepare. Qed.
+Print Assumptions C12_suffices_ggsw_prepare.
+
 (* LWE: FALSE as stated; the exact characterisation: the limb count must be a multiple of 8 *)
 Definition C12_suffices_lwe_encrypt_sk_full : Prop := forall (fam n : Z) (lwe : infos), is_fam fam -> pow2 n -> 0 <= i_size lwe ->
   run_takes (tree_lwe_encrypt_sk fam n lwe) (0, lwe_encrypt_sk_tmp_bytes fam n lwe) <> None.
@@ -249,6 +258,22 @@ Theorem C12_suffices_glwe_automorphism : forall (fam n : Z) (res a key : infos),
   run_takes (tree_glwe_automorphism fam n res a key) (0, glwe_automorphism_tmp_bytes fam n res a key) <> None.
 Proof. exact main_glwe_automorphism. Qed.
 Print Assumptions C12_suffices_glwe_automorphism.
+
+Theorem C12_suffices_gglwe_keyswitch : forall (fam n : Z) (res a key : infos),
+  is_fam fam -> pow2 n -> 8 <= n -> wf_infos res -> wf_infos a -> wf_infos key -> i_n a = n -> i_rank a = i_rank_in key ->
+  run_takes (tree_gglwe_keyswitch fam n res a key) (0, gglwe_keyswitch_tmp_bytes fam n res a key) <> None.
+Proof. exact main_gglwe_keyswitch. Qed.
+Print Assumptions C12_suffices_gglwe_keyswitch.
+Theorem C12_suffices_gglwe_external_product : forall (fam n : Z) (res a ggsw : infos),
+  is_fam fam -> pow2 n -> 8 <= n -> wf_infos res -> wf_infos a -> wf_infos ggsw -> i_n a = n ->
+  run_takes (tree_gglwe_external_product fam n res a ggsw) (0, gglwe_external_product_tmp_bytes fam n res a ggsw) <> None.
+Proof. exact main_gglwe_external_product. Qed.
+Print Assumptions C12_suffices_gglwe_external_product.
+Theorem C12_suffices_ggsw_external_product : forall (fam n : Z) (res a ggsw : infos),
+  is_fam fam -> pow2 n -> 8 <= n -> wf_infos res -> wf_infos a -> wf_infos ggsw -> i_n a = n ->
+  run_takes (tree_ggsw_external_product fam n res a ggsw) (0, ggsw_external_product_tmp_bytes fam n res a ggsw) <> None.
+Proof. exact main_ggsw_external_product. Qed.
+Print Assumptions C12_suffices_ggsw_external_product.
 
 (* glwe_automorphism_add / _sub / _sub_negate: FALSE on the NTT120 family for a cross-radix one-limb rank-1 input *)
 Definition C12_suffices_glwe_automorphism_add_full : Prop := forall (fam n : Z) (res a key : infos),
